@@ -474,6 +474,57 @@ func checkBFSComplete(c *Ctx, rule string, fn *ssa.Function) {
 		}
 	}
 	c.Check(ok, rule, "entity/dag.read:all-ancestors-visited", w.FnPos(fn), "every parent not yet visited is enqueued", detail)
+	// no loop of read is left before it is exhausted, except to a failing return: a break in the
+	// parents loop skips ancestors, a break in a checking loop skips commits
+	exits, loops := earlyLoopExits(fn)
+	c.Sites += loops
+	if len(exits) == 0 {
+		c.Hold(rule, "entity/dag.read:loops-run-to-exhaustion", w.FnPos(fn), fmt.Sprintf("%d loops, left only at exhaustion or to a failing return", loops))
+	} else {
+		e := exits[0]
+		pos := w.FnPos(fn)
+		for _, ins := range e.From.Instrs {
+			if ins.Pos().IsValid() {
+				pos = w.InstrPos(ins)
+			}
+		}
+		c.Violate(rule, "entity/dag.read:loops-run-to-exhaustion", pos, fmt.Sprintf("the loop at %s is left before every element was handled (block %d → %d): commits, parents or packs are skipped, so parts of the history are neither checked nor read", w.InstrPos(firstPosInstr(e.Header)), e.From.Index, e.To.Index))
+	}
+	// a refused history leaves no trace: once a clock was witnessed, read cannot fail any more
+	// except by a witness error itself
+	okTrace, whyTrace := true, ""
+	nW := 0
+	for _, cl := range Calls(fn) {
+		if !strings.HasSuffix(cl.Name, ".Witness") || !strings.HasPrefix(cl.Name, "repository.") {
+			continue
+		}
+		nW++
+		c.Sites++
+		found, _, at := pathAvoiding(fn, cl.Instr, func(i ssa.Instruction) bool {
+			r, isRet := i.(*ssa.Return)
+			if !isRet || returnKind(r) != RetError {
+				return false
+			}
+			idx := errResultIndex(fn)
+			if idx < 0 {
+				return false
+			}
+			for _, o := range origins(ReturnResult(r, idx)) {
+				if o.Kind == "call" && strings.HasSuffix(o.Name, ".Witness") {
+					continue
+				}
+				return true
+			}
+			return false
+		}, nil)
+		if found {
+			okTrace = false
+			whyTrace = fmt.Sprintf("after the clock was witnessed at %s, read can still refuse the history at %s: a refused (possibly hostile) history has then already pushed the local clocks to its values", w.InstrPos(cl.Instr), w.InstrPos(at))
+		}
+	}
+	if nW > 0 {
+		c.Check(okTrace, rule, "entity/dag.read:refusal-before-witness", w.FnPos(fn), "every refusal precedes the first witness", whyTrace)
+	}
 }
 
 // R5.2
@@ -541,11 +592,48 @@ func checkMemClock(c *Ctx) {
 		}
 		bad, p, _ := pathAvoiding(fn, nil, isSuccessReturn, isWrite)
 		c.Check(!bad, "R5.2", "PersistedClock."+m+":persist-before-ack", w.FnPos(fn), "every non-error return passes Write()", "a non-error return is reachable without persisting the clock: "+blocksString(w, p))
+		// the outcome of persisting is the outcome reported: the error returned on a non-failing exit is
+		// Write's own result, or nil on the success edge of Write
+		okErr, whyErr := true, ""
+		eidx := errResultIndex(fn)
+		var writes []*ssa.Call
+		for _, cl := range CallsNamed(fn, "util/lamport.PersistedClock.Write") {
+			if cv, isCall := cl.Instr.(*ssa.Call); isCall {
+				writes = append(writes, cv)
+			}
+		}
+		for _, r := range Returns(fn) {
+			if returnKind(r) == RetError || eidx < 0 {
+				continue
+			}
+			c.Sites++
+			ev := ReturnResult(r, eidx)
+			fromWrite := false
+			for _, o := range origins(ev) {
+				if o.Kind == "call" && o.Name == "util/lamport.PersistedClock.Write" {
+					fromWrite = true
+				}
+			}
+			if fromWrite {
+				continue
+			}
+			dominated := false
+			for _, wc := range writes {
+				if dominatedBySuccess(wc, r) {
+					dominated = true
+				}
+			}
+			if !dominated {
+				okErr, whyErr = false, "the return at "+w.InstrPos(r)+" reports success whatever Write() returned: a failed write of the clock file is swallowed, the value handed out is not on disk and is handed out again after a restart"
+			}
+		}
+		c.Check(okErr, "R5.2", "PersistedClock."+m+":persist-error-reported", w.FnPos(fn), "a failed Write() fails the operation", whyErr)
 		// and the in-memory operation is performed
 		okMem := len(CallsNamed(fn, "util/lamport.MemClock."+m)) > 0
 		c.Check(okMem, "R5.2", "PersistedClock."+m+":delegates", w.FnPos(fn), "delegates to MemClock."+m, "does not perform MemClock."+m)
 	}
 	// stores to PersistedClock.MemClock
+	nRead := 0
 	for _, fn := range w.ModFns {
 		for _, b := range fn.Blocks {
 			for _, ins := range b.Instrs {
@@ -562,6 +650,41 @@ func checkMemClock(c *Ctx) {
 				_, fresh := fa.X.(*ssa.Alloc)
 				okW := fresh || name == "util/lamport.PersistedClock.read"
 				c.Check(okW, "R5.2", name+":replace-MemClock", w.InstrPos(st), "constructor or read()", "the in-memory clock of a persisted clock is replaced outside read()/constructors")
+				if name == "util/lamport.PersistedClock.read" {
+					// the value loaded is the value parsed from the file, under a successful parse of exactly one number
+					okVal, whyVal := false, "the clock installed by read() is not NewMemClockWithTime(<value parsed from the clock file>)"
+					if cv, isCall := st.Val.(*ssa.Call); isCall {
+						if n, _ := callName(cv.Common()); n == "util/lamport.NewMemClockWithTime" && len(cv.Common().Args) == 1 {
+							// the argument is a load of the local the scanner wrote into
+							if ld, isLd := cv.Common().Args[0].(*ssa.UnOp); isLd {
+								if al, isAl := ld.X.(*ssa.Alloc); isAl {
+									for _, r := range *al.Referrers() {
+										if mi, isMI := r.(*ssa.MakeInterface); isMI {
+											_ = mi
+											for _, sc := range CallsNamed(fn, "fmt.Sscanf", "fmt.Sscan", "strconv.ParseUint") {
+												if scv, isSC := sc.Instr.(*ssa.Call); isSC && dominatedBySuccess(scv, st) {
+													okVal = true
+												}
+											}
+										}
+									}
+								}
+							}
+							// or the result of a strconv parse
+							for _, o := range origins(cv.Common().Args[0]) {
+								if o.Kind == "call" && strings.HasPrefix(o.Name, "strconv.Parse") {
+									if scv, isSC := o.Val.(*ssa.Call); isSC && dominatedBySuccess(scv, st) {
+										okVal = true
+									}
+								}
+							}
+						} else {
+							whyVal = "read() installs " + n + "(…) on some path: a clock file without a readable value restarts the clock instead of failing the load (the repository would then rebuild it from the stored entities), so the clock can go backward across a restart"
+						}
+					}
+					c.Check(okVal, "R5.2", name+":loads-parsed-value#"+fmt.Sprint(nRead), w.InstrPos(st), "NewMemClockWithTime(value parsed successfully from the file)", whyVal)
+					nRead++
+				}
 			}
 		}
 	}
